@@ -41,6 +41,8 @@ static struct scfg
     int trigger;
     long camfail, stofail;
     long shapefail; // the camera's get_shape fails when frame `shapefail` is next (first acquisition only), -1 = never
+    long flip_at;       // from hardware frame `flip_at` on the camera has another region of interest (fw x fh), -1 = never
+    uint32_t fw, fh;
     int vary; // the shape reported WITH a frame differs from get_shape on odd frames (same bytes: dims swapped, u16-family type varied)
     long setfail_at, setfail_n; // the camera's set fails on its calls number setfail_at .. setfail_at+setfail_n-1 (counted per camera), -1 = never
     int slow, pace;
@@ -210,6 +212,7 @@ struct MSto
 };
 static int trig_obj[MAXS];
 static long stor_count[MAXS];
+static int sto_busy[MAXS + 2]; // handle of the running instance per storage device, 0 = none
 
 static enum DeviceStatusCode
 c_set(struct Camera* c, struct CameraProperties* p)
@@ -246,13 +249,26 @@ c_meta(const struct Camera* c, struct CameraPropertyMetadata* m)
     memset(m, 0, sizeof *m);
     return Device_Ok;
 }
+// the camera's shape for the frame that comes next (a camera may change its region of interest in mid-stream: the source asks
+// for the shape before every frame)
+static struct ImageShape
+cur_shape(const struct MCam* m)
+{
+    struct ImageShape sh = m->shape;
+    if (m->running && epoch == 1 && SC[m->s].flip_at >= 0 && (long)m->next_hw >= SC[m->s].flip_at) {
+        sh.dims.width = SC[m->s].fw;
+        sh.dims.height = SC[m->s].fh;
+        sh.strides = (typeof(sh.strides)){ 1, 1, (int64_t)SC[m->s].fw, (int64_t)SC[m->s].fw * SC[m->s].fh };
+    }
+    return sh;
+}
 static enum DeviceStatusCode
 c_shape(const struct Camera* c, struct ImageShape* s)
 {
     struct MCam* m = containerof(c, struct MCam, cam);
     if (!m->running) // (while running the source asks before every frame: CamFrame events already show the device in use)
         ev("{\"e\":\"DevUse\",\"kind\":\"cam\",\"hd\":%d,\"call\":\"get_shape\"}", m->h);
-    *s = m->shape;
+    *s = cur_shape(m);
     if (m->running && epoch == 1 && SC[m->s].shapefail >= 0 && (long)m->next_hw == SC[m->s].shapefail) {
         ev("{\"e\":\"CamFail\",\"s\":%d,\"hw\":%ld,\"call\":\"get_shape\"}", m->s, (long)m->next_hw);
         vs_yield("cam_shape");
@@ -322,18 +338,19 @@ c_frame(struct Camera* c, void* im, size_t* nbytes, struct ImageInfo* info)
         ev("{\"e\":\"CamNoData\",\"s\":%d}", s);
         return Device_Ok;
     }
-    size_t n = bytes_of_image(&m->shape);
+    const struct ImageShape shp = cur_shape(m);
+    size_t n = bytes_of_image(&shp);
     uint64_t hw = m->next_hw++;
     for (size_t i = 0; i < n; i++)
         ((uint8_t*)im)[i] = pix(s, epoch, hw, i);
-    info->shape = m->shape;
+    info->shape = shp;
     if (SC[s].vary && (hw & 1)) {
         // what the camera reports for THIS frame: the same number of bytes, other dimensions and (2-byte types) another type
-        uint32_t w = m->shape.dims.width, h = m->shape.dims.height;
+        uint32_t w = shp.dims.width, h = shp.dims.height;
         info->shape.dims.width = h;
         info->shape.dims.height = w;
         info->shape.strides = (typeof(info->shape.strides)){ 1, 1, (int64_t)h, (int64_t)w * h };
-        if (bytes_of_type(m->shape.type) == 2)
+        if (bytes_of_type(shp.type) == 2)
             info->shape.type = (hw & 2) ? SampleType_u12 : SampleType_u10;
     }
     info->hardware_frame_id = hw;
@@ -429,6 +446,14 @@ static enum DeviceState
 s_start(struct Storage* st)
 {
     struct MSto* m = containerof(st, struct MSto, sto);
+    // one writer per destination (as the raw writer's file lock): a second open instance of the same storage device cannot
+    // start while the first is running - a failure that comes from the client's device choices, not from a device fault
+    if (sto_busy[m->s]) {
+        ev("{\"e\":\"DevUse\",\"kind\":\"sto\",\"hd\":%d,\"call\":\"start_refused\"}", m->h);
+        vs_yield("sto_start");
+        return DeviceState_AwaitingConfiguration;
+    }
+    sto_busy[m->s] = m->h;
     m->running = 1;
     m->nappend = 0;
     m->nframes = 0;
@@ -442,6 +467,8 @@ s_stop(struct Storage* st)
 {
     struct MSto* m = containerof(st, struct MSto, sto);
     m->running = 0;
+    if (sto_busy[m->s] == m->h)
+        sto_busy[m->s] = 0;
     ev("{\"e\":\"StorStop\",\"s\":%d,\"hd\":%d}", m->s, m->h);
     vs_yield("sto_stop");
     return DeviceState_Armed;
@@ -459,6 +486,8 @@ s_append(struct Storage* st, const struct VideoFrame* f, size_t* nbytes)
         vs_yield("sto_slow");
     unsigned t1 = tag_of((const uint8_t*)f, *nbytes);
     if (m->nappend++ == SC[s].stofail && epoch == 1) {
+        if (sto_busy[s] == m->h)
+            sto_busy[s] = 0;
         ev("{\"e\":\"StorFail\",\"s\":%d}", s);
         free(buf);
         return DeviceState_AwaitingConfiguration;
@@ -478,7 +507,14 @@ s_append(struct Storage* st, const struct VideoFrame* f, size_t* nbytes)
     free(buf);
     return DeviceState_Running;
 }
-static void s_destroy(struct Storage* s) { free(containerof(s, struct MSto, sto)); }
+static void
+s_destroy(struct Storage* s)
+{
+    struct MSto* m = containerof(s, struct MSto, sto);
+    if (sto_busy[m->s] == m->h)
+        sto_busy[m->s] = 0;
+    free(m);
+}
 static void
 s_reserve(struct Storage* s, const struct ImageShape* sh)
 {
@@ -845,7 +881,7 @@ main(int argc, char** argv)
     cfg.budget = 60000;
     cfg.fair_budget = 60000;
     for (int s = 0; s < MAXS; s++)
-        SC[s] = (struct scfg){ .frames = 5, .w = 5, .h = 3, .type = SampleType_u8, .avg = 1, .camfail = -1, .stofail = -1, .shapefail = -1, .setfail_at = -1, .setfail_n = 1, .zero_at = -1 };
+        SC[s] = (struct scfg){ .frames = 5, .w = 5, .h = 3, .type = SampleType_u8, .avg = 1, .camfail = -1, .stofail = -1, .shapefail = -1, .setfail_at = -1, .setfail_n = 1, .zero_at = -1, .flip_at = -1 };
     static char line[1 << 18];
     while (fgets(line, sizeof line, f)) {
         char* tok = strtok(line, " \t\n");
@@ -893,6 +929,9 @@ main(int argc, char** argv)
                 else if (!strcmp(k, "camfail")) SC[s].camfail = atol(v);
                 else if (!strcmp(k, "shapefail")) SC[s].shapefail = atol(v);
                 else if (!strcmp(k, "vary")) SC[s].vary = atoi(v);
+                else if (!strcmp(k, "flipat")) SC[s].flip_at = atol(v);
+                else if (!strcmp(k, "fw")) SC[s].fw = (uint32_t)atoi(v);
+                else if (!strcmp(k, "fh")) SC[s].fh = (uint32_t)atoi(v);
                 else if (!strcmp(k, "setfail")) SC[s].setfail_at = atol(v);
                 else if (!strcmp(k, "setfailn")) SC[s].setfail_n = atol(v);
                 else if (!strcmp(k, "stofail")) SC[s].stofail = atol(v);
